@@ -5,7 +5,7 @@
 // 0..2 non-position attributes, all speeds/prediction schemes, float and integer positions).  The connectivity section is taken
 // apart into a SCRIPT (header counts, symbols, split events, start-face bits, seam bits); `ser_conn` below is the C++ port of
 // TRAV's enc_conn (coq/Model/EbTraversal.v) and rebuilds the bytes of the section for ANY script; SELF-CHECK: on the unmodified
-// script it must reproduce the real encoder's bytes exactly ('! SELFCHECK' otherwise).  For the valence method the symbols live
+// script it must reproduce the real encoder's bytes exactly ('! C02-SELFCHECK' otherwise).  For the valence method the symbols live
 // in six context lists whose contexts depend on the decoder's own valence bookkeeping: the REAL decoder template is run on the
 // script with a scripted valence traversal decoder (the real NewActiveCornerReached/MergeVertices, symbols from the script) to
 // learn which context each symbol is asked from (self-check: the lists so obtained from the unmodified script equal the
@@ -357,7 +357,7 @@ static bool make_base(FILE *out, const MeshSpec &ms, const Cfg &c, int qpos, int
   if (!re.Encode(eo, &eb).ok()) return false;
   b->label = ms.name + "/" + c.what + "/q" + S(qpos);
   { EncoderBuffer eb2; Status s2 = enc.EncodeMeshToBuffer(*mesh, &eb2);   // the public API must write the same stream
-    if (!s2.ok() || eb2.size() != eb.size() || memcmp(eb2.data(), eb.data(), eb.size()) != 0) { fprintf(out, "! SELFCHECK public encoder API stream differs from the recording encoder's (%s)\n", b->label.c_str()); return false; } }
+    if (!s2.ok() || eb2.size() != eb.size() || memcmp(eb2.data(), eb.data(), eb.size()) != 0) { fprintf(out, "! C02-SELFCHECK public encoder API stream differs from the recording encoder's (%s)\n", b->label.c_str()); return false; } }
   auto *ei = re.ri(); TE &te = ei->traversal_encoder_;
   b->all.assign((const uint8_t *)eb.data(), (const uint8_t *)eb.data() + eb.size());
   b->prefix.assign(b->all.begin(), b->all.begin() + re.conn_begin);
@@ -372,12 +372,12 @@ static bool make_base(FILE *out, const MeshSpec &ms, const Cfg &c, int qpos, int
   if constexpr (METHOD == 2) s.ctx = te.context_symbols_;
   // SELF-CHECK 1: the serialiser reproduces the real encoder's connectivity section from the recorded script
   std::vector<uint8_t> mine = ser_conn(s);
-  if (mine != b->section) { fprintf(out, "! SELFCHECK serialiser differs from the real encoder on the unmodified script (%s) %s mine=%s real=%s\n", b->label.c_str(), script_text(s).c_str(), hex(mine.data(), mine.size()).c_str(), hex(b->section.data(), b->section.size()).c_str()); return false; }
+  if (mine != b->section) { fprintf(out, "! C02-SELFCHECK serialiser differs from the real encoder on the unmodified script (%s) %s mine=%s real=%s\n", b->label.c_str(), script_text(s).c_str(), hex(mine.data(), mine.size()).c_str(), hex(b->section.data(), b->section.size()).c_str()); return false; }
   g_selfcheck_ok++;
   // SELF-CHECK 2 (valence): the context lists derived by running the real decoder template on the script equal the encoder's
   if (METHOD == 2) {
     std::vector<std::vector<uint32_t>> lists; bool fne = false;
-    if (!simulate_valence(s, lists, &fne) || fne || lists != s.ctx) { fprintf(out, "! SELFCHECK valence context lists re-derived from the script differ from the encoder's (%s) %s\n", b->label.c_str(), script_text(s).c_str()); return false; }
+    if (!simulate_valence(s, lists, &fne) || fne || lists != s.ctx) { fprintf(out, "! C02-SELFCHECK valence context lists re-derived from the script differ from the encoder's (%s) %s\n", b->label.c_str(), script_text(s).c_str()); return false; }
     g_selfcheck_resim_ok++;
   }
   return true;
@@ -692,10 +692,10 @@ static void run_job(FILE *out, long idx, Shared *sh) {
   std::vector<uint8_t> st = b.prefix; st.insert(st.end(), sec.begin(), sec.end()); st.insert(st.end(), after.begin(), after.end());
   const std::string label = std::string(CLSNAME[j.cls]) + " " + what + " of [" + b.label + "] script=" + script_text(s);
   long bangs = 0;
-  if (j.cls == VALID && st != b.all) { fprintf(out, "! SELFCHECK re-serialised unmodified stream differs from the encoder's: %s %s\n", label.c_str(), hex(st.data(), st.size()).c_str()); bangs++; }
+  if (j.cls == VALID && st != b.all) { fprintf(out, "! C02-SELFCHECK re-serialised unmodified stream differs from the encoder's: %s %s\n", label.c_str(), hex(st.data(), st.size()).c_str()); bangs++; }
   publish(sh, label, st); sh->stage = 1;
   int r = run_stream(out, st, label, 0, sh, &bangs, &s);
-  if (j.cls == VALID && r != 1) { fprintf(out, "! SELFCHECK the unmodified stream is not accepted: %s %s\n", label.c_str(), hex(st.data(), st.size()).c_str()); bangs++; }
+  if (j.cls == VALID && r != 1) { fprintf(out, "! C02-SELFCHECK the unmodified stream is not accepted: %s %s\n", label.c_str(), hex(st.data(), st.size()).c_str()); bangs++; }
   if (r == 1 && j.cls != VALID) { sh->stage = 2; run_stream(out, st, label, 4, sh, &bangs, &s); }
   sh->stage = 0;
   if (g_dump) fprintf(g_dump, "%s %d %s\n", CLSNAME[j.cls], r, hex(st.data(), st.size()).c_str());
@@ -870,14 +870,14 @@ int main(int argc, char **argv) {
   fprintf(out, "# h_hostile tier=%s seed=%s base_streams=%zu symbols=%ld split_events=%ld start_face_bits=%ld (interior %ld) seam_bits=%ld\n", argv[1], argv[2], g_bases.size(), total_syms, total_evs, total_start, interior, total_seam);
   fprintf(out, "# SELFCHECK serialiser == real encoder bytes on %ld/%zu unmodified scripts; valence context lists re-derived through the real decoder template == encoder's lists on %ld\n", g_selfcheck_ok, g_bases.size(), g_selfcheck_resim_ok);
   for (auto &kv : per_cfg) fprintf(out, "# CONFIG %d x %s\n", kv.second, kv.first.c_str());
-  if (g_bases.empty()) { fprintf(out, "! SELFCHECK no base stream could be produced\n"); fclose(out); return 0; }
+  if (g_bases.empty()) { fprintf(out, "! C02-SELFCHECK no base stream could be produced\n"); fclose(out); return 0; }
   // 2. targeted scripts (in-process probes of the real connectivity decoder, in a child)
   { fflush(out); pid_t pid = fork();
     if (pid == 0) { int fd = open(errpath.c_str(), O_WRONLY | O_CREAT | O_TRUNC, 0644); if (fd >= 0) { dup2(fd, 2); close(fd); }
       alarm(thorough ? 900 : 150); std::vector<Targeted> ts; Rng tr(r.s ^ 0x5151); targeted_search(tr, thorough, ts);
       FILE *tf = fopen(tpath.c_str(), "wb"); if (!tf) _exit(3); dump_targeted(tf, ts); fclose(tf); _exit(0); }
     int st = 0; waitpid(pid, &st, 0);
-    if (WIFEXITED(st) && WEXITSTATUS(st) == 0) { FILE *tf = fopen(tpath.c_str(), "rb"); if (!tf || !load_targeted(tf, &g_targeted)) fprintf(out, "! SELFCHECK targeted scripts could not be read back\n"); if (tf) fclose(tf); }
+    if (WIFEXITED(st) && WEXITSTATUS(st) == 0) { FILE *tf = fopen(tpath.c_str(), "rb"); if (!tf || !load_targeted(tf, &g_targeted)) fprintf(out, "! C02-SELFCHECK targeted scripts could not be read back\n"); if (tf) fclose(tf); }
     else { std::vector<std::string> rep; std::string head = sanitizer_report(errpath, &rep);
       fprintf(out, "! C02 the real connectivity decoder template %s during the in-process script probes (status %d) [%s] -\n", (WIFSIGNALED(st) && WTERMSIG(st) == SIGALRM) ? "ran out of time" : "crashed", st, head.c_str());
       for (auto &l : rep) fprintf(out, "# REPORT %s\n", l.c_str()); }
